@@ -37,6 +37,10 @@ func ruleL5(c *Ctx) {
 		})
 	}
 	isOnceArg := func(n ast.Node) bool {
+		// a literal bound once to a local whose every use is the argument of sync.Once.Do
+		if lit, isLit := n.(*ast.FuncLit); isLit && literalOnlyRunByOnce(p, lit) {
+			return true
+		}
 		call, ok := p.Parent(n).(*ast.CallExpr)
 		if !ok {
 			return false
